@@ -49,3 +49,41 @@ reg("C20", cards.check_C20, "proof",
     "zero on 29-31), dependency sets of all accessors exclude bits 29-31, plus the fold of the summaries over the "
     "property's whole space (52 cards x 8 mark combinations) for idempotence, strip round trip and numeric dominance.",
     "bit-vector abstraction of MIR summaries + finite fold", "5-C20")
+
+from .rules import misc
+
+reg("C06", misc.check_C06, "proof",
+    "Static: determine_name / determine_class summarised from MIR and decided as comparison tables whose cells partition "
+    "all 65536 values; on every cell the code's constant result equals the oracle's category / class identifier and the "
+    "oracle is constant on the cell (so all 309 classes are contiguous non-empty ranges); field wiring of From<u16>, "
+    "default, is_invalid, the self-consistency test and the trait-default hand_rank wiring by node identity of summaries.",
+    "MIR summary as cell table vs generated poker-class oracle + provenance of field wiring", "5-C06")
+reg("C07", misc.check_C07, "proof",
+    "Static: Ord::cmp summarised over two converted ranks, shown to use the values only in comparisons with constants and "
+    "with each other, then decided on three representatives per order cell: spec table (valid reversed, invalid lowest), "
+    "antisymmetry, Equal iff equal over all representative pairs, transitivity over all representative triples; "
+    "partial_cmp = Some(cmp) by node identity; no operator overrides; derive facts; enum declaration order vs strength order.",
+    "decision table of the comparison over order cells + impl/derive facts", "5-C07")
+reg("C12", misc.check_C12, "other",
+    "Static: both symbol tables as cell tables over all 1114112 scalar values; the token parser's summary shown to read "
+    "only character positions 0 and 1, then folded over every pair of leading characters of a symbol/separator/multibyte "
+    "alphabet; every panic site on the parse path discharged over the same alphabet; seven hand parsers folded over token "
+    "layouts (missing, exact, surplus tokens; mixed whitespace); bit-set parser by bounded unrolling plus loop-shape rule.",
+    "cell tables over char + dataflow (positions read) + fold over abstract token layouts", "5-C12",
+    ["str::chars yields the scalar values in order and split_whitespace the whitespace-separated tokens in order; neither panics"])
+reg("C15", misc.check_C15, "other",
+    "Static: container conversions are OR-trees over exactly their slots (provenance); fold_in/has/is_valid as per-bit "
+    "formulas; count by structure; peel decided by 53 abstract cases with partially known bits (first member is deck card k, "
+    "lower bits and bits 52-63 symbolic): returns that card's bit and clears exactly it, blank and unchanged otherwise.",
+    "bit-vector abstraction with partially known bits + provenance", "5-C15", ["count_ones is the population count"])
+reg("C16", misc.check_C16, "other",
+    "Static: TryFrom<u64> for Two summarised from MIR (two sequenced peels, inverse table, validity gate) and folded over "
+    "all 2016 two-bit values (result in deck order, from_two gives the set back, InvalidBinaryFormat when a bit is not a "
+    "card) and over structured sets of other population counts with and without non-card bits; peel contract as in C15.",
+    "MIR summary folded over the property's explicit finite space + abstract peel cases", "5-C16")
+reg("C17", misc.check_C17, "other",
+    "Static in the sense of DESIGN section 1: the closed-form summaries of chen_formula and its helpers, extracted from MIR "
+    "with f32 operations replaced by their IEEE contracts, are folded over all 52x51 ordered pairs and compared with the "
+    "Chen formula oracle; the per-card points table over the 53 words; arithmetic panic sites discharged over the same pairs.",
+    "closed-form MIR summary folded over the complete (2652-point) input space", "5-C17",
+    ["IEEE-754 single precision add/sub/mul/div/max/ceil as emulated in ckcverif/evals.py"])
